@@ -193,6 +193,13 @@ def _wrap(args):
         return ("err", traceback.format_exc())
 
 
+def _worker_init():
+    # `check` installs a Python-level SIGTERM handler (scratch cleanup); a pool worker must die at once when its pool
+    # terminates it - a Python-level handler is only run at the next bytecode and can be missed while blocked in a lock
+    import signal
+    signal.signal(signal.SIGTERM, signal.SIG_DFL)
+
+
 def pmap(fn, items, procs=None, chunksize=1):
     """Map fn over items in forked worker processes; machinery exceptions are re-raised."""
     items = list(items)
@@ -203,7 +210,7 @@ def pmap(fn, items, procs=None, chunksize=1):
         res = [_wrap((fn, a)) for a in items]
     else:
         ctx = multiprocessing.get_context("fork")
-        with ctx.Pool(procs) as pool:
+        with ctx.Pool(procs, initializer=_worker_init) as pool:
             res = pool.map(_wrap, [(fn, a) for a in items], chunksize=chunksize)
     out = []
     for st, v in res:
